@@ -86,6 +86,14 @@ fn encode(frame: &FrameCase, crlf: bool) -> Vec<u8> {
 /// oracle for one mutant (no catch: the caller wraps)
 #[inline]
 fn judge(orig: &Frame<'static>, mutant: &[u8]) -> Result<(), String> {
+    // the same damaged text decoded twice in a row: each result is judged on its own (a decoder that remembers the
+    // last line must not let it through the second time)
+    judge_once(orig, mutant)?;
+    judge_once(orig, mutant).map_err(|e| format!("{e} (when the same text was decoded a second time)"))
+}
+
+#[inline]
+fn judge_once(orig: &Frame<'static>, mutant: &[u8]) -> Result<(), String> {
     match Frame::from_bytes(mutant) {
         Err(_) => Ok(()),
         Ok(f) if &f == orig => {
@@ -301,7 +309,15 @@ pub fn check_forgery(c: &ForgeryCase, st: &mut Stats) -> Result<(), String> {
     if st.want_sample() {
         st.sample(json!({"forgery": show_bytes(&bytes), "kind": format!("{:?}", c.forge)}));
     }
-    match catch(|| Frame::from_bytes(&bytes).map(|f| format!("{f:?}"))) {
+    match catch(|| {
+        // a forgery stays a forgery when the same text is decoded again (a decoder may remember the last line)
+        for round in 1..=3 {
+            if let Ok(f) = Frame::from_bytes(&bytes) {
+                return Ok::<String, ()>(format!("{f:?} (decode number {round} of the same text)"));
+            }
+        }
+        Err(())
+    }) {
         Ok(Err(_)) => Ok(()),
         Ok(Ok(f)) => Err(format!(
             "a frame whose {} was accepted: {} -> {f}",
